@@ -51,6 +51,8 @@ type s1op struct {
 	nfiles    int
 	fdExec    bool
 	cancelOK  bool
+	badFile   int // >0: a descriptor number that is not open, at this position of the file list
+	manyFiles int // >0: so many entries in the file list
 	pre       []string // per Open item, what was at the path before the call: absent|regular|other|noparent
 }
 
@@ -284,9 +286,70 @@ func plantObjects(c *vcore.Ctx) {
 	}
 }
 
+// genRefused draws an operation whose request or reply cannot be carried by the control socket: larger than
+// the frame, more descriptors than one packet can hold, a descriptor number that is not open. All of them are
+// failures caused by the request; the transport itself is intact.
+func genRefused(c *vcore.Ctx, kind string, used map[int]bool) *s1op {
+	src := c.Src
+	switch kind {
+	case "open":
+		op := &s1op{kind: "open"}
+		switch src.Pick("refused_open", "oversize_reply", "oversize_request", "too_many_files") {
+		case "oversize_reply":
+			// short relative names (the serving process works in <root>/w) under a directory that does not exist:
+			// the request is small, the per-item error texts of the reply are not
+			op.stage = "oversize_reply"
+			for i, n := 0, 900+src.Int(300, "nbig"); i < n; i++ {
+				op.open = append(op.open, container.OpenCmd{Path: fmt.Sprintf("q/%d", i), Flag: os.O_RDONLY})
+			}
+		case "oversize_request":
+			op.stage = "oversize_request"
+			for i, n := 0, 300+src.Int(200, "nbig"); i < n; i++ {
+				op.open = append(op.open, container.OpenCmd{Path: filepath.Join(s1Root, "w", strings.Repeat("d", 100), fmt.Sprint(i)), Flag: os.O_RDONLY})
+			}
+		default:
+			// every item succeeds; the reply would carry more descriptors than one packet may
+			op.stage = "too_many_files"
+			for i, n := 0, 254+src.Int(40, "nbig"); i < n; i++ {
+				op.open = append(op.open, container.OpenCmd{Path: fmt.Sprintf("many/%d", i), Flag: os.O_RDWR | os.O_CREATE, Perm: 0644, MkdirAll: true})
+			}
+		}
+		return op
+	case "symlink":
+		op := &s1op{kind: "symlink", stage: "oversize_reply"}
+		for i, n := 0, 900+src.Int(300, "nbig"); i < n; i++ {
+			op.links = append(op.links, container.SymbolicLink{LinkPath: fmt.Sprintf("q/l%d", i), Target: "t"})
+		}
+		return op
+	}
+	op := genExecve(c, used)
+	op.plan, op.syncFail = planRun, false
+	op.args = []string{filepath.Join(s1Root, "bin", "prog"), "x"}
+	op.env = []string{"PATH=" + filepath.Join(s1Root, "bin")}
+	switch src.Pick("refused_execve", "oversize_env", "oversize_args", "closed_descriptor", "too_many_descriptors") {
+	case "oversize_env":
+		op.stage = "oversize_env"
+		op.env = append(op.env, "BIG="+strings.Repeat("e", 33000+src.Int(9000, "nbig")))
+	case "oversize_args":
+		op.stage = "oversize_args"
+		for i := 0; i < 40; i++ {
+			op.args = append(op.args, strings.Repeat("a", 1000))
+		}
+	case "closed_descriptor":
+		op.stage, op.badFile = "closed_descriptor", 1+src.Int(3, "badfile_at")
+	default:
+		op.stage, op.manyFiles = "too_many_descriptors", 254+src.Int(40, "nbig")
+	}
+	return op
+}
+
 func genOp(c *vcore.Ctx, sh *s1Shape, used map[int]bool) *s1op {
 	src := c.Src
 	k := sh.opMix[src.Int(len(sh.opMix), "op")]
+	if sh.bigMsg && src.Bool(1, 3, "refused") {
+		c.MarkNonTrivial()
+		return genRefused(c, k, used)
+	}
 	switch k {
 	case "ping":
 		return &s1op{kind: "ping"}
@@ -333,12 +396,18 @@ func (o *s1op) String() string {
 	case "execve":
 		return fmt.Sprintf("Execve(stage=%s code=%d syncAfter=%v files=%d fexecve=%v)", o.stage, o.code, o.syncAfter, o.nfiles, o.fdExec)
 	case "open":
+		if o.refused() {
+			return fmt.Sprintf("Open[%d items: %s]", len(o.open), o.stage)
+		}
 		var parts []string
 		for _, x := range o.open {
 			parts = append(parts, fmt.Sprintf("%s:%#x mk=%v", strings.TrimPrefix(x.Path, s1Root), x.Flag, x.MkdirAll))
 		}
 		return "Open[" + strings.Join(parts, ", ") + "]"
 	case "symlink":
+		if o.refused() {
+			return fmt.Sprintf("Symlink[%d items: %s]", len(o.links), o.stage)
+		}
 		var parts []string
 		for _, x := range o.links {
 			parts = append(parts, strings.TrimPrefix(x.LinkPath, s1Root))
@@ -358,6 +427,7 @@ type s1Sim struct {
 	viol          *vcore.Violation
 	files         []*os.File
 	lockedPlanted bool
+	refusedSite   string // first operation of the history whose message the control socket refused
 }
 
 // hostGoroutines counts goroutines executing methods of the host-side environment object.
@@ -386,7 +456,19 @@ func (o *s1op) site() string {
 	if o.kind == "execve" {
 		return "execve/" + o.stage
 	}
+	if o.refused() {
+		return o.kind + "/" + o.stage
+	}
 	return o.kind
+}
+
+// refused: the request or its reply does not fit the control socket (genRefused)
+func (o *s1op) refused() bool {
+	switch o.stage {
+	case "oversize_reply", "oversize_request", "too_many_files", "oversize_env", "oversize_args", "closed_descriptor", "too_many_descriptors":
+		return true
+	}
+	return false
 }
 
 // call performs the API call of op on the environment (runs in its own goroutine).
@@ -408,6 +490,12 @@ func (s *s1Sim) call(ctx context.Context, op *s1op, out *s1res) {
 		for i := 0; i < op.nfiles; i++ {
 			p.Files = append(p.Files, s.files[i].Fd())
 		}
+		for len(p.Files) < op.manyFiles {
+			p.Files = append(p.Files, s.files[len(p.Files)%3].Fd())
+		}
+		if op.badFile > 0 {
+			p.Files = append(p.Files[:min(op.badFile-1, len(p.Files))], append([]uintptr{closedFdNumber}, p.Files[min(op.badFile-1, len(p.Files)):]...)...)
+		}
 		if op.fdExec {
 			p.ExecFile = s.files[2].Fd()
 		}
@@ -427,6 +515,9 @@ func (s *s1Sim) call(ctx context.Context, op *s1op, out *s1res) {
 		out.res = env.Execve(ctx, p)
 	}
 }
+
+// closedFdNumber is a descriptor number nothing in a worker ever opens (below the transit ranges)
+const closedFdNumber = 1999
 
 // forceFinalizers runs a collection and gives the finalizer goroutine (which lives outside the
 // bubble) a few milliseconds of real time; package time is fake in here, the raw clock is not.
@@ -678,7 +769,7 @@ func (s *s1Sim) run() {
 			break
 		}
 		epilogue := i >= sh.nOps
-		if op.kind == "open" || op.kind == "delete" {
+		if (op.kind == "open" || op.kind == "delete") && !op.refused() {
 			plantObjects(c)
 		}
 		if op.kind == "reset" && op.stage == "undeletable" {
@@ -689,7 +780,7 @@ func (s *s1Sim) run() {
 			c.Logf("plant undeletable %s", strings.TrimPrefix(d, s1Root))
 			c.Fault("reset_fails_in_container")
 		}
-		if op.kind == "open" {
+		if op.kind == "open" && !op.refused() {
 			op.pre = nil
 			for _, it := range op.open {
 				st := "other"
@@ -716,6 +807,9 @@ func (s *s1Sim) run() {
 			s.c.SimTime += d
 		}
 		c.Logf("op %d: %s", i, op)
+		if op.refused() {
+			c.Fault("message_refused:" + op.stage)
+		}
 		synctest.Wait()
 		w.mu.Lock()
 		stray := len(w.c2h.inflight) + len(w.c2h.delivered)
@@ -790,7 +884,10 @@ func (s *s1Sim) run() {
 			break
 		}
 		s.check(i, op, out, wasLost, cancelledNow, epilogue, lastProgramFailure)
-		if op.kind == "execve" && op.stage != "run" && op.stage != "lookup_in_path" {
+		if op.refused() && s.refusedSite == "" {
+			s.refusedSite = op.site()
+		}
+		if (op.kind == "execve" && op.stage != "run" && op.stage != "lookup_in_path") || op.refused() {
 			lastProgramFailure = op.site()
 		}
 		if w.transportLost && epilogue {
@@ -845,6 +942,9 @@ func (s *s1Sim) check(i int, op *s1op, out *s1res, wasLost, cancelled, epilogue 
 	if epilogue && lastFail != "" {
 		site = "after:" + lastFail
 	}
+	if s.refusedSite != "" && !op.refused() {
+		site = "after:" + s.refusedSite // whatever goes wrong from here on is blamed on the refused message first
+	}
 	closeOpen := func() {
 		for _, r := range out.open {
 			if r.File != nil {
@@ -898,6 +998,9 @@ func (s *s1Sim) check(i int, op *s1op, out *s1res, wasLost, cancelled, epilogue 
 		if len(op.links) == 0 {
 			return
 		}
+		if op.refused() && out.err != nil {
+			return // an error of this call: what the statement asks for; the environment must stay usable (epilogue)
+		}
 		if out.err != nil {
 			s.fail("unexpected_error", site, "%s failed as a whole: %v", op, out.err)
 			return
@@ -923,6 +1026,9 @@ func (s *s1Sim) check(i int, op *s1op, out *s1res, wasLost, cancelled, epilogue 
 func (s *s1Sim) checkExecResult(op *s1op, out *s1res, site string, cancelled bool) {
 	r := out.res
 	expectFail := op.stage != "run" && op.stage != "lookup_in_path"
+	if (op.stage == "oversize_env" || op.stage == "oversize_args") && r.Status != runner.StatusRunnerError {
+		expectFail = false // an implementation that can carry the request after all: then it is an ordinary run
+	}
 	if expectFail {
 		if r.Status != runner.StatusRunnerError || r.Error == "" {
 			s.fail("wrong_answer", site, "%s must be reported as an error of the call, got %v", op, r)
@@ -977,6 +1083,9 @@ func (s *s1Sim) checkExecResult(op *s1op, out *s1res, site string, cancelled boo
 func (s *s1Sim) checkOpen(op *s1op, out *s1res, site string) {
 	if len(op.open) == 0 {
 		return
+	}
+	if op.refused() && out.err != nil {
+		return // an error of this call: what the statement asks for; the environment must stay usable (epilogue)
 	}
 	if out.err != nil {
 		s.fail("unexpected_error", site, "%s failed as a whole: %v", op, out.err)
